@@ -297,6 +297,7 @@ class Runner:
             samples = []
             viols = []
             dig = []
+            crash_reports = []
             for t, r in done:
                 if "crashed" in r:
                     if r["crashed"] == -999:
@@ -310,8 +311,23 @@ class Runner:
                     rr = self.execute_iso(h)
                     if any(v["class"] == "crash" for v in rr["violations"]):
                         viols.append({"index": idx, "history": h, "violations": [v for v in rr["violations"] if v["class"] == "crash"]})
-                    else:
-                        raise core.HarnessError("%s worker died (history %d in flight) but the history alone does not reproduce it: %s" % (PROP, idx, r["stderr"][-1500:]))
+                        continue
+                    # The history in flight does not crash alone: the crash needs what earlier histories of the batch did to the
+                    # process (heap damage by the code under test).  The batch up to that history is then the replay unit.
+                    frm = t[4]
+                    rb = self.iso("batch_entry", seed, frm, idx - frm + 1, None)
+                    again = isinstance(rb, dict) and "crashed" in rb
+                    by_signal = r["crashed"] in (-4, -6, -7, -8, -11)      # SIGILL, SIGABRT, SIGBUS, SIGFPE, SIGSEGV
+                    if not again and not by_signal:
+                        raise core.HarnessError("%s worker died with status %s (history %d in flight); neither the history nor its batch reproduces it: %s"
+                                                % (PROP, r["crashed"], idx, r["stderr"][-1500:]))
+                    crash_reports.append({"property": PROP, "batch": [seed, frm, idx - frm + 1], "index": idx, "setup": h["setup"], "ops": h["ops"],
+                                          "violation": {"class": "crash", "op": None, "detail": "the worker process died with status %s while history %d of its batch was in flight: %s"
+                                                                                            % (r["crashed"], idx, r["stderr"][-400:])},
+                                          "nondeterministic": not again,
+                                          "note": "the history alone does not crash: the crash needs what earlier histories of the batch did to the process" +
+                                                  ("" if again else "; the batch did not crash again in one fresh attempt (replay re-tries)"),
+                                          "how_to_replay": "./check %s --replay <this file>" % PROP})
                     continue
                 runs += r["runs"]; ops += r["ops"]
                 aux_first.update(r.get("aux", {}))
@@ -342,6 +358,10 @@ class Runner:
         import glob
         for old in glob.glob(os.path.join(core.REPLAY_DIR, PROP + "-*.json")):
             os.remove(old)
+        for rep in crash_reports:
+            path = core.save_replay(PROP, "%s-%d-crash-in-batch" % (seed, rep["index"]), rep)
+            self.log("[%s] a worker died with history %d in flight; reproduces %s: %s" % (PROP, rep["index"], "only as part of its batch" if not rep["nondeterministic"] else "not in one fresh attempt (reported as observed)", path))
+            new_violations.append(path)
         seen = set()
         nmin = 0
         for v in sorted(viols, key=lambda v: v["index"]):
